@@ -169,7 +169,7 @@ def resolve_plan(spec, plan_calls, T):
         shift = int(call.get("shift", -1) or -1) if kind in E.LAGGED_TRANSFORMS else -1
         for n in names:
             for k in dates:
-                cells[(n, int(k))] = (kind, bool(call.get("when_data")), shift)   # shift: the plan transform's own reference lag
+                cells[(n, int(k))] = (kind, bool(call.get("when_data")), shift, call.get("name_format"))   # shift: reference lag; name_format: custom databox name
     return cells
 
 
@@ -234,7 +234,8 @@ def check(spec, params, T, inp, out, cells, nv, shocks_from_data=True, order="da
             datum = E.NAN
             if cell is not None:
                 kind, wd = cell[0], cell[1]
-                datum = inp.get(E.PLAN_PREFIX[kind] + x, k, v)
+                fmt_ = cell[3] if len(cell) > 3 else None
+                datum = inp.get(fmt_.format(x) if fmt_ else E.PLAN_PREFIX[kind] + x, k, v)
                 if datum != datum:
                     if not wd:
                         rep.inconc["exogenized-point-without-datum"] += 1
